@@ -6,6 +6,8 @@ package main
 // be identical (C18).
 
 import (
+	"crypto/sha1"
+	"encoding/hex"
 	"bytes"
 	"fmt"
 	"io"
@@ -68,6 +70,42 @@ func fnDump(f *parse.Function) J {
 		args = append(args, []string{a.Name, a.Type})
 	}
 	return J{"t": f.TargetName(), "id": f.ID(), "pkg": f.Package, "err": f.IsError, "ctx": f.IsContext, "args": args}
+}
+
+// fnFull is everything the generated-main template can see of a function.
+func fnFull(f *parse.Function) J {
+	args := [][]string{}
+	for _, a := range f.Args {
+		args = append(args, []string{a.Name, a.Type})
+	}
+	return J{"name": f.Name, "recv": f.Receiver, "pkgAlias": f.PkgAlias, "package": f.Package, "importPath": f.ImportPath, "err": f.IsError,
+		"ctx": f.IsContext, "synopsis": f.Synopsis, "comment": f.Comment, "args": args}
+}
+
+// infoFull: the PkgInfo as GenerateMainfile receives it (after the two sorts of Invoke)
+func infoFull(info *parse.PkgInfo) J {
+	funcs := []J{}
+	for _, f := range info.Funcs {
+		funcs = append(funcs, fnFull(f))
+	}
+	imps := []J{}
+	for _, im := range info.Imports {
+		l := []J{}
+		for _, f := range im.Info.Funcs {
+			l = append(l, fnFull(f))
+		}
+		imps = append(imps, J{"u": im.UniqueName, "path": im.Path, "name": im.Name, "alias": im.Alias, "funcs": l})
+	}
+	var dflt interface{}
+	if info.DefaultFunc != nil {
+		dflt = fnFull(info.DefaultFunc)
+	}
+	al := []J{}
+	for k, f := range info.Aliases {
+		al = append(al, J{"key": k, "fn": fnFull(f)})
+	}
+	sort.Slice(al, func(i, j int) bool { return al[i]["key"].(string) < al[j]["key"].(string) })
+	return J{"funcs": funcs, "imports": imps, "default": dflt, "aliases": al, "description": info.Description}
 }
 
 var multiDefRx = regexp.MustCompile(`target has multiple definitions`)
@@ -170,6 +208,20 @@ func feparse(c *Ctx) {
 				}
 			}
 			os.Remove(main)
+			// ring (ii'): the bytes themselves against the Lean interpreter of the (regenerated) template
+			if first != nil {
+				if inf, e2 := parse.PrimaryPackage("go", dir, files); e2 == nil {
+					sort.Sort(inf.Funcs)
+					sort.Sort(inf.Imports)
+					bin := []string{"mage", "static.bin", "my tool"}[r.Intn(3)]
+					if e3 := mage.GenerateMainfile(bin, main, inf); e3 == nil {
+						b, _ := os.ReadFile(main)
+						sum := sha1.Sum(b)
+						c.Emit(J{"op": "fe.emit", "binary": bin, "info": infoFull(inf)}, J{"sha1": hex.EncodeToString(sum[:]), "len": len(b)}, "emit", fmt.Sprintf("imports=%d", len(inf.Imports)))
+					}
+					os.Remove(main)
+				}
+			}
 			impl["deterministic"] = same
 			var keys []string
 			if i := bytes.Index(first, []byte("targets := map[string]string{")); i >= 0 {
@@ -226,6 +278,21 @@ func injectCollision(r interface{ Intn(int) int }, p *proj.Project) {
 		}
 		return s + "X"
 	}
+	// a second declaration of exactly the same function is not valid Go (go/doc silently keeps one of them): never generate it
+	declared := func(name, recv string) bool {
+		for _, fl := range p.Main.Files {
+			for _, d := range fl.Funcs {
+				rc := ""
+				if d.Recv != nil {
+					rc = d.Recv.Base
+				}
+				if d.Name == name && rc == recv {
+					return true
+				}
+			}
+		}
+		return false
+	}
 	ref := proj.FnRef{K: "ident", A: t.Name}
 	if t.Recv != "" {
 		ref = proj.FnRef{K: "sel", A: t.Recv, B: t.Name}
@@ -240,7 +307,9 @@ func injectCollision(r interface{ Intn(int) int }, p *proj.Project) {
 		if t.Recv != "" {
 			rc = &proj.Recv{Base: t.Recv}
 		}
-		f.Funcs = append(f.Funcs, proj.FuncDecl{Name: flip(t.Name), Recv: rc, Params: []proj.Field{}, Results: []proj.Field{}})
+		if !declared(flip(t.Name), t.Recv) {
+			f.Funcs = append(f.Funcs, proj.FuncDecl{Name: flip(t.Name), Recv: rc, Params: []proj.Field{}, Results: []proj.Field{}})
+		}
 	case 1: // alias vs target (any case)
 		other := tg[r.Intn(len(tg))]
 		oref := proj.FnRef{K: "ident", A: other.Name}
@@ -274,14 +343,18 @@ func injectCollision(r interface{ Intn(int) int }, p *proj.Project) {
 	case 4: // near miss: alias that differs from every target
 		addAlias(p, "nosuchtarget", ref)
 	case 5: // function vs namespace method spelled alike is NOT a collision (ns:name vs name): near miss
-		f.Funcs = append(f.Funcs, proj.FuncDecl{Name: "Zed" + t.Name, Params: []proj.Field{}, Results: []proj.Field{}})
+		if !declared("Zed"+t.Name, "") {
+			f.Funcs = append(f.Funcs, proj.FuncDecl{Name: "Zed" + t.Name, Params: []proj.Field{}, Results: []proj.Field{}})
+		}
 	default: // local target equal to a root-imported target name
 		for _, imp := range p.World {
 			it := proj.Targets(imp.Pkg)
 			if len(it) == 0 || it[0].Recv != "" {
 				continue
 			}
-			f.Funcs = append(f.Funcs, proj.FuncDecl{Name: it[0].Name, Params: []proj.Field{}, Results: []proj.Field{}})
+			if !declared(it[0].Name, "") {
+				f.Funcs = append(f.Funcs, proj.FuncDecl{Name: it[0].Name, Params: []proj.Field{}, Results: []proj.Field{}})
+			}
 			break
 		}
 	}
